@@ -416,7 +416,7 @@ def worker(args):
 def run(ck):
     exe = ck.build("asan", ["vsrv"])["vsrv"]
     thorough = ck.tier == "thorough"
-    n = int((120000 if thorough else 1400) * ck.scale)
+    n = int((600000 if thorough else 1400) * ck.scale)
     args = [(ck.rundir, exe, sa.subseed(ck, i), n, i) for i in range(16)]
     results = c01.run_workers(ck, worker, args)
     cfgs = set()
